@@ -267,23 +267,30 @@ impl World {
     }
 
     fn extend_real(&mut self, slot: Slot, it: &IterSpec) {
-        let (h, p, l) = (it.hint, it.panic_at, it.loose);
+        let (h, p, l, u) = (it.hint, it.panic_at, it.loose, it.upper);
+        // every item exists before the call: whatever the global allocator is asked for during `extend` itself is
+        // the crate's doing (a temporary String per item, say)
         let items = if matches!(it.kind, IterKind::Lean | IterKind::LeanSlots) { self.lean_items(it) } else { vec![] };
+        let chars: Vec<char> = if matches!(it.kind, IterKind::Char | IterKind::RefChar) { flat_chars(&it.items) } else { vec![] };
+        let strings: Vec<String> = if matches!(it.kind, IterKind::String) { it.items.clone() } else { vec![] };
+        let boxes: Vec<Box<str>> = if matches!(it.kind, IterKind::BoxStr) { it.items.iter().map(|s| s.clone().into_boxed_str()).collect() } else { vec![] };
+        let cows: Vec<Cow<'_, str>> = if matches!(it.kind, IterKind::CowO) { it.items.iter().map(|s| Cow::<str>::Owned(s.clone())).collect() } else { vec![] };
         shadow::with(|hp| hp.events.clear());
+        self.last_extend_allocs = None;
         let s = self.slots[slot as usize].as_mut().unwrap();
+        let g0 = shadow::global_allocs();
         match it.kind {
-            IterKind::Char => s.extend(PlanIter::new(flat_chars(&it.items).into_iter(), h, p).loose(l).upper(it.upper)),
-            IterKind::RefChar => {
-                let v = flat_chars(&it.items);
-                s.extend(PlanIter::new(v.iter(), h, p).loose(l).upper(it.upper))
-            }
-            IterKind::Str => s.extend(PlanIter::new(it.items.iter().map(|s| s.as_str()), h, p).loose(l).upper(it.upper)),
-            IterKind::String => s.extend(PlanIter::new(it.items.clone().into_iter(), h, p).loose(l).upper(it.upper)),
-            IterKind::BoxStr => s.extend(PlanIter::new(it.items.iter().map(|s| s.clone().into_boxed_str()), h, p).loose(l).upper(it.upper)),
-            IterKind::CowB => s.extend(PlanIter::new(it.items.iter().map(|s| Cow::Borrowed(s.as_str())), h, p).loose(l).upper(it.upper)),
-            IterKind::CowO => s.extend(PlanIter::new(it.items.iter().map(|s| Cow::<str>::Owned(s.clone())), h, p).loose(l).upper(it.upper)),
-            IterKind::Lean | IterKind::LeanSlots => s.extend(PlanIter::new(items.into_iter(), h, p).loose(l).upper(it.upper)),
+            IterKind::Char => s.extend(PlanIter::new(chars.into_iter(), h, p).loose(l).upper(u)),
+            IterKind::RefChar => s.extend(PlanIter::new(chars.iter(), h, p).loose(l).upper(u)),
+            IterKind::Str => s.extend(PlanIter::new(it.items.iter().map(|s| s.as_str()), h, p).loose(l).upper(u)),
+            IterKind::String => s.extend(PlanIter::new(strings.into_iter(), h, p).loose(l).upper(u)),
+            IterKind::BoxStr => s.extend(PlanIter::new(boxes.into_iter(), h, p).loose(l).upper(u)),
+            IterKind::CowB => s.extend(PlanIter::new(it.items.iter().map(|s| Cow::Borrowed(s.as_str())), h, p).loose(l).upper(u)),
+            IterKind::CowO => s.extend(PlanIter::new(cows.into_iter(), h, p).loose(l).upper(u)),
+            IterKind::Lean | IterKind::LeanSlots => s.extend(PlanIter::new(items.into_iter(), h, p).loose(l).upper(u)),
         }
+        // (reached only when `extend` returned normally)
+        self.last_extend_allocs = Some(shadow::global_allocs() - g0);
     }
 
     /// Apply `op` to the real strings. Panics are caught and classified.
@@ -350,6 +357,9 @@ impl World {
             Ok(o) => {
                 if measurable && matches!(o, Outcome::Ok(_)) {
                     self.last_other_allocs = Some(g);
+                }
+                if matches!(op, Op::Extend { .. }) && matches!(o, Outcome::Ok(_)) {
+                    self.last_other_allocs = self.last_extend_allocs.take();
                 }
                 o
             }
